@@ -3,6 +3,7 @@ package mon
 
 import (
 	_ "verifharness/mon/c05"
+	_ "verifharness/mon/c11"
 	_ "verifharness/mon/c17"
 	_ "verifharness/mon/c18"
 	_ "verifharness/mon/c20"
